@@ -7,6 +7,7 @@ import (
 	"fmt"
 	"sort"
 	"strconv"
+	"strings"
 
 	"github.com/robfig/soy/data"
 )
@@ -677,7 +678,11 @@ type FloatNode struct {
 }
 
 func (n *FloatNode) String() string {
-	return strconv.FormatFloat(n.Value, 'g', -1, 64)
+	var s = strconv.FormatFloat(n.Value, 'g', -1, 64)
+	if !strings.ContainsAny(s, ".eIN") {
+		s += ".0" // keep it a float literal: "1" would parse back as an integer
+	}
+	return s
 }
 
 type StringNode struct {
